@@ -2,6 +2,7 @@
 verdict, minimisation over threads / calls / explicit switch list, replay."""
 import copy
 import json
+import time
 import os
 import random
 
@@ -108,7 +109,7 @@ AUG_SMILES = (
 
 
 DEC_FEATURES = ("novel", "multi_index", "ring1", "branch1", "organic", "charged_h", "stereo", "big_ring", "nested", "compat")
-SMI_THEMES = ("mixed", "kekulize", "stereo", "molgen", "kekulize", "mixed", "decode", "fragments")
+SMI_THEMES = ("mixed", "kekulize", "stereo", "molgen", "kekulize", "failing", "decode", "fragments")
 
 
 def _chunk(rng, feat, novel, pairs):
@@ -202,6 +203,14 @@ def corpus(rng, b=0):
     elif theme == "fragments":     # every input has several '.'-separated fragments
         parts = ("CC", "O", "N", "[Na+]", "[Cl-]", "CCO", "c1ccccc1", "C1CC1", "C[Si]CF", "CC(N)C", "[O-]C", "F", "C=O", "C#N")
         smi = [".".join(rng.choice(parts) for _ in range(rng.randint(2, 5))) for _ in range(8)]
+    elif theme == "failing":
+        # calls that raise somewhere in the middle of parsing, next to calls that succeed: whatever
+        # a failure path cleans up, hands back or resets is in use by somebody else
+        smi = list(rng.sample(("C(", "C1CC", "cc", "c1cccc1", "[Xx]", "C)", "C1CC2", "C=", "c1ccc1"), 3))
+        smi += [gen.derive_failing_smiles(rng) for _ in range(3)]
+        smi += rng.sample([x for x in SMILES_CONC if x not in gen.SMILES_BAD], 5)
+        for k in rng.sample(range(len(dec)), 3):
+            dec[k] = dec[k] + rng.choice(gen.INVALID)
     elif theme == "molgen":
         smi = [rng.choice(AUG_SMILES), rng.choice(SMILES_CONC)]
     else:
@@ -213,7 +222,7 @@ def corpus(rng, b=0):
         K = [gen.DEFAULT]
         m = stubs.gen_mol(rng, K, rng.choice((6, 10, 14))) if rng.random() < 0.6 else stubs.gen_aromatic_mol(rng, K)
         smi.append(m.smiles(rng))
-    p_dec = {"kekulize": 0.15, "decode": 1.0, "fragments": 0.15}.get(theme, rng.choice((0.3, 0.5, 0.6, 0.9)))
+    p_dec = {"kekulize": 0.15, "decode": 1.0, "fragments": 0.15, "failing": 0.25}.get(theme, rng.choice((0.3, 0.5, 0.6, 0.9)))
     deep = (b % 40 == 5) if procs.TIER == "quick" else (b % 8 == 5)
     medium = (b % 24 == 6) if procs.TIER == "quick" else (b % 8 == 6)
     if medium:
@@ -263,7 +272,10 @@ def gen_spec(base_seed, i, W):
     threads = []
     for t in range(n):
         calls = []
-        for j in range(rng.choice((1, 1, 2, 2, 3, 4) if procs.TIER == "quick" else (1, 2, 2, 3, 4, 6))):
+        ncalls = rng.choice((1, 1, 2, 2, 3, 4) if procs.TIER == "quick" else (1, 2, 2, 3, 4, 6))
+        if theme == "failing":
+            ncalls = max(ncalls, 3)       # calls that start while another thread is inside a failure path
+        for j in range(ncalls):
             if rng.random() < p_dec:
                 x = rng.choice(dec)
                 if info["flood"] and rng.random() < (0.7 if j == 0 else 0.12):
@@ -322,6 +334,9 @@ def gen_spec(base_seed, i, W):
         budget_sw = 20000.0 if info["flood"] else 4000.0     # flood runs: the eviction race needs dense switching
         cap = (budget_sw if kind == "random" else budget_sw / 16) / max(total, 1)
         policy["p"] = min(policy["p"], cap)
+    if kind in ("random", "window", "shared"):
+        policy["exc_q"] = rng.choice((0.0, 0.1, 0.3, 0.3)) if theme == "failing" else rng.choice((0.0, 0.0, 0.1, 0.3))
+        policy["exc_release"] = rng.choice((1 / 50, 1 / 300, 1 / 2000))
     probes = []
     seen = set()
     for calls in threads:
@@ -395,7 +410,15 @@ def run_one(base_seed, i, want_sample=False):
         procs.request_stop()
         return {"i": i, "digest": "alone-failure-%d" % i, "steps": 0, "nops": 1, "probes": {}, "oracle_queries": 0,
                 "oracle_hits": 0, "fault_free": False, "nontrivial": False, "violation": rep}
-    rec = W.run_spec(spec)
+    use_cold = _COLD_LEFT[0] > 0
+    if use_cold:
+        # an earlier violation in this worker showed only in children forked from it (an effect of
+        # object addresses or allocation order): the next runs are made in freshly started
+        # interpreters, where whatever is found replays exactly
+        _COLD_LEFT[0] -= 1
+        rec = procs.cold_sched(_jsonable(spec), timeout=spec.get("wall", 240.0) + 60.0)
+    else:
+        rec = W.run_spec(spec)
     v = judge(W, spec, rec)
     preempt = sum(1 for s in rec["switches"] if s[3] == "preempt")
     summary = {
@@ -413,6 +436,7 @@ def run_one(base_seed, i, want_sample=False):
                    "double_miss_runs": 1 if rec["double_miss"] else 0,
                    "fault_thread_stalled": rec["stalls_fired"], "shared_access_switches": rec["shared_switches"],
                    "fault_thread_held_before_store_of_tested_global": rec.get("holds_fired", 0),
+                   "fault_thread_parked_inside_exception_path": rec.get("exc_parks", 0),
                    "double_augmenting_path_runs": 1 if rec["double_aug"] else 0},
         "oracle_queries": W.oracle.queries - q0, "oracle_hits": W.oracle.hits - h0,
         "fault_free": False, "violation": None,
@@ -429,11 +453,23 @@ def run_one(base_seed, i, want_sample=False):
     if v is not None and procs.stop_requested():
         summary["unminimised_violation"] = v["class"]     # another worker is already reporting one
     elif v is not None:
-        procs.request_stop()
-        rep = minimise(W, spec, rec, v)
+        rep = minimise(W, spec, rec, v, cold=use_cold)
         rep.update(seed=base_seed, run=i, engine="schedsim", property=PROP)
-        summary["violation"] = rep
+        if rep.get("replayable") or use_cold:
+            procs.request_stop()
+            summary["violation"] = rep
+        else:
+            # real (this run did differ from the alone-runs) but not exactly replayable: the search
+            # goes on in freshly started interpreters; reported, flagged, if nothing better turns up
+            rep["not_reproducible_in_a_cold_interpreter"] = True
+            summary["weak_violation"] = rep
+            _COLD_LEFT[0] = 24
+    if use_cold:
+        summary["probes"]["runs_in_a_freshly_started_interpreter"] = 1
     return summary
+
+
+_COLD_LEFT = [0]
 
 
 def _distinct_novel(spec):
@@ -455,7 +491,12 @@ def explicit_of(rec):
             "switches": [[s[0], s[2]] for s in rec["switches"] if s[3] == "preempt"]}
 
 
-def minimise(W, spec, rec, v, budget=300):
+def minimise(W, spec, rec, v, budget=300, cold=False):
+    """Two passes, like histsim: minimise with candidates run in children forked from this worker
+    (fast), then confirm the result in a freshly started interpreter - which is what `sim.replay`
+    starts.  If it does not reproduce there (an effect that depends on object addresses or
+    allocation order, which a forked child inherits from its long-lived parent), minimise again
+    with every candidate in a freshly started interpreter."""
     cls = v["class"]
     spent = [0]
     cur = copy.deepcopy(spec)
@@ -463,13 +504,19 @@ def minimise(W, spec, rec, v, budget=300):
     cur["policy"] = dict(cur["policy"], kind="explicit")
 
     steps_left = [40_000_000]       # bound on simulated steps spent minimising (about a minute)
+    t_end = time.time() + 240.0
 
-    def fails(cand):
-        if spent[0] >= budget or steps_left[0] <= 0:
+    def run_cand(cand, in_cold):
+        if in_cold:
+            return procs.cold_sched(_jsonable(cand), timeout=cand.get("wall", 240.0) + 60.0)
+        return W.run_spec(cand)
+
+    def fails(cand, in_cold=cold):
+        if spent[0] >= budget or steps_left[0] <= 0 or (in_cold and time.time() > t_end):
             return None
         spent[0] += 1
         try:
-            r = W.run_spec(cand)
+            r = run_cand(cand, in_cold)
             steps_left[0] -= r["steps"]
             vv = judge(W, cand, r)
         except procs.HarnessError:
@@ -478,7 +525,17 @@ def minimise(W, spec, rec, v, budget=300):
 
     base = fails(cur)
     if base is None:
-        # explicit replay of the recorded schedule must reproduce; if not, report unminimised
+        if not cold:
+            return minimise(W, spec, rec, v, budget=min(budget, 120), cold=True)
+        # not even the recorded schedule reproduces when spelt out (the effect depends on what the
+        # scheduler itself allocates): keep the run as it was - seeded policy, unminimised - if that
+        # repeats in a freshly started interpreter
+        spent[0] = 0
+        again = fails(spec, True)
+        if again is not None:
+            return {"violation_class": cls, "violation": {"detail": again[1]["detail"]}, "spec": _jsonable(spec),
+                    "threads": spec["threads"], "replayable": True, "replay_mode": "cold", "unminimised": True,
+                    "original_length": len(rec["switches"]), "switches": len(rec["switches"])}
         return {"violation_class": cls, "violation": {"detail": v["detail"]}, "spec": _jsonable(spec),
                 "threads": spec["threads"], "replayable": False, "original_length": len(rec["switches"])}
     best = base
@@ -541,9 +598,22 @@ def minimise(W, spec, rec, v, budget=300):
             else:
                 j += 1
     cur["probes"] = cur["probes"]
+    if not cold:
+        spent[0] = 0
+        confirmed = fails(cur, True)
+        if confirmed is None:
+            again = minimise(W, spec, rec, v, budget=min(budget, 120), cold=True)
+            if again.get("replayable"):
+                return again
+            # reproducible only in children of this worker process: reported, and flagged as such
+            best_r, best_v = best
+            return {"violation_class": cls, "violation": {"detail": best_v["detail"]}, "spec": _jsonable(cur),
+                    "threads": cur["threads"], "replayable": False, "replay_mode": "fork",
+                    "original_length": len(rec["switches"]), "switches": len(cur["explicit"]["switches"])}
+        best = confirmed
     r, vv = best
     return {"violation_class": cls, "violation": {"detail": vv["detail"]}, "spec": _jsonable(cur),
-            "threads": cur["threads"], "replayable": True, "original_length": len(rec["switches"]),
+            "threads": cur["threads"], "replayable": True, "replay_mode": "cold", "original_length": len(rec["switches"]),
             "switches": len(cur["explicit"]["switches"])}
 
 
@@ -570,7 +640,7 @@ def replay(rep):
                         tuple(spec.get("pre", ())))
             v = None
         else:
-            r = W.run_spec(spec)
+            r = procs.cold_sched(rep["spec"]) if rep.get("replay_mode") == "cold" else W.run_spec(spec)
             v = judge(W, spec, r)
     except AloneFailure as e:
         v = {"class": e.outcome, "detail": e.detail}
